@@ -70,6 +70,40 @@ func EdKey(pattern string, n, t int, seed int64) []edkg.LocalPartySaveData {
 	return v
 }
 
+// EdKeyShaped runs the real EdDSA keygen (small ids) under successive deterministic seeds until the group
+// public key has the requested shape: "y-short" (y < 2^248: byte 31 of the key's encoding is 0x00/0x80),
+// "x-short" (x < 2^248), "y-very-short" (y < 2^240). Expected number of keygens: 128 (65536 for very short,
+// not used in quick tiers). Returns nil if none is found within max attempts.
+func EdKeyShaped(shape string, n, t int, seed int64, max int) []edkg.LocalPartySaveData {
+	k := fmt.Sprintf("shape-%s/%d/%d/%d", shape, n, t, seed)
+	edMu.Lock()
+	defer edMu.Unlock()
+	if v, ok := edKeys[k]; ok {
+		return v
+	}
+	for j := 0; j < max; j++ {
+		v, err := fix.GenEd(KeySet("small", n, ref.Ed25519), t, seed, fmt.Sprintf("scen-%s-%d", k, j))
+		if err != nil {
+			panic(err)
+		}
+		pub := v[0].EDDSAPub
+		ok := false
+		switch shape {
+		case "y-short":
+			ok = pub.Y().BitLen() <= 248
+		case "x-short":
+			ok = pub.X().BitLen() <= 248
+		case "y-very-short":
+			ok = pub.Y().BitLen() <= 240
+		}
+		if ok {
+			edKeys[k] = v
+			return v
+		}
+	}
+	return nil
+}
+
 func EcKey(pattern string, n, t int, seed int64) []eckg.LocalPartySaveData {
 	k := fmt.Sprintf("%s/%d/%d/%d", pattern, n, t, seed)
 	ecMu.Lock()
@@ -218,5 +252,18 @@ func FaultScenarios(seed int64) map[string]func() protomc.Scenario {
 		"ecdsa-keygen-3":  func() protomc.Scenario { return EcKeygen("small", 3, 1, seed) },
 		"ecdsa-resharing": func() protomc.Scenario { return EcResharing(2, 1, []int{0, 1}, 2, 1, seed, false) },
 		"ecdsa-resharing-3new": func() protomc.Scenario { return EcResharing(2, 1, []int{0, 1}, 3, 1, seed, false) },
+		// the same configurations with Parameters.SetConcurrency(1) (legal: ">= 1"): one verification slot
+		"ecdsa-keygen-conc1": func() protomc.Scenario {
+			sc := EcKeygen("small", 2, 1, seed)
+			sc.Name += ",concurrency=1"
+			sc.Cfg.Concurrency = 1
+			return sc
+		},
+		"ecdsa-resharing-conc1": func() protomc.Scenario {
+			sc := EcResharing(2, 1, []int{0, 1}, 2, 1, seed, false)
+			sc.Name += ",concurrency=1"
+			sc.Cfg.Concurrency = 1
+			return sc
+		},
 	}
 }
